@@ -124,16 +124,21 @@ class C07(ProgCheck):
                     failing = ("begin", [fail], whens([ERRPRINT("h"), fail2, ERRPRINT("h not reached?")]))
                     add2(pre + [("begin", [failing], whens([ERRPRINT("outer")])), ERRPRINT("after")], {"family": "errrec", "shape": "clause-fails-caught", "fail": fname})
                     add2(pre + [failing, ERRPRINT("after")], {"family": "errrec", "shape": "clause-fails-to-host", "fail": fname})
+                    # e2: inside the clause, a block handles the failure of an inner clause, then the clause reads again
+                    #     (finding C07.error_record_stale_after_failed_inner_clause)
+                    inner_failing = ("begin", [("raise", "E1")], [("E1", [fail2])])
+                    add2(pre + [("begin", [fail], whens([ERRPRINT("h"), ("begin", [inner_failing], whens([ERRPRINT("mid")])), ERRPRINT("hagain")]))],
+                         {"family": "errrec", "shape": "inner-clause-fails-handled", "fail": fname, "same": [("h", "hagain", "C07.error_record_stale_after_failed_inner_clause")]})
                     # f: handled errors inside a loop inside the clause
                     loop = ("for", "K8", I(1), I(2), None, "auto", [("begin", [("if", [(("bin", "EQ", ("var", "K8"), I(2)), [fail2])])], whens([ERRPRINT("inloop")])), ERRPRINT("iter")])
                     add2(pre + [("begin", [fail], whens([loop, ERRPRINT("hend")]))], {"family": "errrec", "shape": "loop-in-clause", "fail": fname})
                     ne += 8
         self.stats["errrec_cases"] = sum(1 for c in cases if c.meta.get("family") == "errrec")
         for k in range(300 if quick else 5000):
-            g = progen.Gen(self.rng, nvars=2, funcs=(k % 2 == 0), errors=0.25, errrec=(0.08 if k % 3 else 0.0), extras=(0.15 if k % 2 else 0.0))
+            g = progen.Gen(self.rng, nvars=2, funcs=(k % 2 == 0), errors=0.25, errrec=(0.08 if k % 3 else 0.0), extras=(0.15 if k % 2 else 0.0), mathx=(0.2 if k % 4 == 3 else 0.0))
             add(g.program(nstmts=self.rng.randint(3, 6), depth=3), {"family": "random"})
             for kk, vv in g.stats.items():
-                if kk.startswith(("error-", "handler-reports", "function-clause", "function-reads", "isnull")):
+                if kk.startswith(("error-", "handler-reports", "function-clause", "function-reads", "isnull", "mathx-")):
                     self.stats.setdefault("errrec_random", {})[kk] = self.stats.get("errrec_random", {}).get(kk, 0) + vv
         cases += self.interactive_cases(quick)
         self.stats["cases"] = len(cases)
@@ -158,6 +163,17 @@ class C07(ProgCheck):
 
     def interactive_cases(self, quick):
         r = self.rng
+        # the probe op `istep` is a hand copy of the cli's main loop: the tie to apps/cli_parser.cpp is the shape of its source
+        import os, re
+        from .. import build
+        try:
+            cli = open(os.path.join(build.REPO, "apps", "cli_parser.cpp"), encoding="latin-1").read()
+        except OSError as e:
+            cli = ""
+        m = re.search(r"try\s*\{\s*r\s*=\s*r->execute\(ctx\);\s*\}\s*catch\s*\(bloc::RuntimeError&\s*\w+\)\s*\{(.*?)break;", cli, flags=re.S)
+        if not m or "ctx.onRuntimeError();" not in m.group(1):
+            self.broken_ties.append("apps/cli_parser.cpp: the interactive loop is not `try { r = r->execute(ctx); } catch (RuntimeError&) { … ctx.onRuntimeError(); … break; }` "
+                                    "(the probe op istep and Model stepTop mirror that shape)")
         cases = []
         fresh = [0]
 
